@@ -1653,13 +1653,16 @@ impl Ty {
         match (self, expected) {
             (
                 Ty::Distinct { sub_ty: ty, .. } | Ty::EnumVariant { sub_ty: ty, .. },
-                Ty::IInt(0) | Ty::UInt(0),
+                Ty::IInt(0) | Ty::UInt(0) | Ty::Float(0),
             ) => {
                 if ty.has_semantics_of(expected) {
                     return true;
                 }
             }
-            (Ty::Distinct { .. } | Ty::EnumVariant { .. }, Ty::IInt(_) | Ty::UInt(_)) => {
+            (
+                Ty::Distinct { .. } | Ty::EnumVariant { .. },
+                Ty::IInt(_) | Ty::UInt(_) | Ty::Float(_),
+            ) => {
                 return false;
             }
             (
